@@ -19,6 +19,7 @@ RULE = ("requests `rem|crem <form> <lhs> <rhs>` over all operand shapes and form
 BUILDS = {"quick": [("dev", ()), ("release", ())],
           "thorough": [("dev", ()), ("release", ()), ("release", ("packed",)), ("o0-nochk", ())]}
 MODE_INDEPENDENT = True      # half of every batch runs under a non-default thread rounding mode
+ASSUMPTIONS = [C.GRID_NOTE]
 REQUIRED_SITES = {"rem.eq": 100, "rem.gt.fit": 100, "rem.gt.ovf": 50, "rem.lt.fit": 100, "rem.lt.step": 100,
                   "rem.lt.step_ovf": 20}
 BUDGET = {"quick": 20, "thorough": 300}
@@ -151,6 +152,8 @@ def gen(rng, tier, shard, batch):
         if _CON is None:
             _CON = constructed(random.Random(20260110))
         reqs += _CON[shard::E.NCPU]
+        for a, p, b, q in C.small_grid(tier, shard, E.NCPU):
+            reqs.append("rem vv %s %s" % (G.fD(a, p), G.fD(b, q)))
     for _ in range(N_RANDOM[tier]):
         op = rng.choice(("rem", "rem", "crem"))
         ltok, rtok = C.shape_operands(rng)
